@@ -657,3 +657,30 @@ package gtab
 //@   modifies nothing
 //@ func (l *Gpos5_1) encode() (res []byte)   props: C08
 //@   modifies nothing
+
+// Contextual subtable readers.
+//@ func readNested(p *parser.Parser, seqLookupCount int) (res []SeqLookup, err error)   props: C02 C18
+//@   requires parser.inv(p) && 0 <= seqLookupCount && seqLookupCount <= 65535
+//@   ensures err == nil ==> parser.inv(p) && fresh(res) && len(res) == seqLookupCount
+//@   ensures p.r == old(p.r) && faults(p.r) >= old(faults(p.r)) && (faults(p.r) > old(faults(p.r)) ==> err != nil)
+//@   modifies p.*, allelems(byte), rpos(p.r), faults(p.r)
+//@   loop 0
+//@     invariant parser.inv(p) && p.r == old(p.r) && faults(p.r) == old(faults(p.r)) && fresh(res) && len(res) == seqLookupCount
+
+// readSeqContext1: every rule set of the result is indexed by a coverage index
+// (what SeqContext1.apply relies on).
+//@ func readSeqContext1(p *parser.Parser, subtablePos int64) (s Subtable, err error)   props: C02 C18 C07
+//@   requires parser.inv(p) && subtablePos >= 0 && subtablePos <= 2305843009213693952
+//@   ensures err == nil ==> parser.inv(p) && s != nil && is(s, *SeqContext1) && s.(*SeqContext1) != nil
+//@   ensures err == nil ==> forall g uint16 :: has(s.(*SeqContext1).Cov, g) ==> 0 <= s.(*SeqContext1).Cov[g] && s.(*SeqContext1).Cov[g] < len(s.(*SeqContext1).Rules)
+//@   ensures p.r == old(p.r) && (faults(p.r) > old(faults(p.r)) ==> err != nil)
+//@   modifies p.*, allelems(byte), rpos(p.r), faults(p.r)
+//@   loop 0
+//@     invariant parser.inv(p) && p.r == old(p.r) && faults(p.r) <= old(faults(p.r)) && res != nil && fresh(res) && fresh(res.Rules) && len(res.Rules) == len(seqRuleSetOffsets) && res.Cov != nil && fresh(res.Cov)
+//@     invariant forall g uint16 :: has(res.Cov, g) ==> 0 <= res.Cov[g] && res.Cov[g] < len(res.Rules)
+//@   loop 1
+//@     invariant parser.inv(p) && p.r == old(p.r) && faults(p.r) <= old(faults(p.r)) && res != nil && fresh(res) && fresh(res.Rules) && len(res.Rules) == len(seqRuleSetOffsets) && res.Cov != nil && fresh(res.Cov) && base >= 0 && base <= 2305843009213759487 && fresh(res.Rules[i]) && len(res.Rules[i]) == len(seqRuleOffsets)
+//@     invariant forall g uint16 :: has(res.Cov, g) ==> 0 <= res.Cov[g] && res.Cov[g] < len(res.Rules)
+//@   loop 2
+//@     invariant parser.inv(p) && p.r == old(p.r) && faults(p.r) <= old(faults(p.r)) && res != nil && fresh(res) && fresh(res.Rules) && len(res.Rules) == len(seqRuleSetOffsets) && res.Cov != nil && fresh(res.Cov) && fresh(inputSequence) && len(inputSequence) == glyphCount - 1 && fresh(res.Rules[i]) && len(res.Rules[i]) == len(seqRuleOffsets) && 0 <= seqLookupCount && seqLookupCount <= 65535
+//@     invariant forall g uint16 :: has(res.Cov, g) ==> 0 <= res.Cov[g] && res.Cov[g] < len(res.Rules)
